@@ -18,6 +18,11 @@ from hypothesis import strategies as st
 from dv import hyp, refcodec as R, strategies as S
 from dv.common import VERIF_DIR, derive_seed, fp
 from dv.evidence import Recorder, finish
+import diameter.message            # noqa: E402,F401  (the codec's module state is recorded before its first use)
+import diameter.message.commands   # noqa: E402,F401
+from dv import codecthreads as CT
+
+PRISTINE = CT.ModuleState()
 
 PID = "C04"
 RULE = ("inputs: uniformly random bytes (0..64 KiB, small sizes favoured); every prefix of valid "
@@ -272,11 +277,53 @@ def alarm_handler(signum, frame):
     raise TimeoutError("C04 wall-clock alarm")
 
 
+def check_concurrent(t, rec: Recorder):
+    """Two or three threads decode different inputs at once (as the reader threads of different connections do):
+    each gets the outcome - the decoded content, or the decode error - that it gets when the calls run in turn."""
+    from diameter.message import Message
+    bufs, seed, p = t
+    case = {"concurrent": [b.hex() for b in bufs], "seed": seed, "p": p}
+    Counters.avp_budget = Counters.prim_budget = 1 << 60
+
+    def decode(b):
+        out = []
+        for plain in (False, True):
+            try:
+                m = Message.from_bytes(b, plain_msg=plain) if plain else Message.from_bytes(b)
+            except allowed() as e:
+                out.append(("decode-error", type(e).__name__))
+                continue
+            h = m.header
+            tops = tuple((a.code, a.vendor_id, bytes(a.payload)) for a in m.avps)
+            out.append((type(m).__name__, h.command_code, h.hop_by_hop_identifier, h.end_to_end_identifier, tops))
+        return tuple(out)
+    tasks = [lambda b=b: decode(b) for b in bufs]
+    conc, seq, taken, errs = CT.concurrent_vs_sequential(tasks, PRISTINE, seed, p, 6)
+    for i, (c, s_) in enumerate(zip(conc, seq)):
+        if c != s_:
+            if c[0] != "ok":
+                kind, detail = f"decode-fails/{c[1]}", f"thread {i}: {c} where the sequential call gives {s_[0]}"
+            elif s_[0] != "ok":
+                kind, detail = "outcome-differs", f"thread {i} returns where the sequential call raises {s_[1]}"
+            else:
+                kind = "content-differs"
+                detail = f"thread {i} (input of {len(bufs[i])} bytes): decoded {str(c[1])[:120]} but sequentially {str(s_[1])[:120]}"
+            rec.violation(f"C04/concurrent/{kind}", case, detail + f"; schedule {taken}")
+            break
+    for e in errs:
+        rec.violation("C04/concurrent/thread-error", case, e[:300])
+    rec.case(fp("conc", tuple(hash(b) for b in bufs), tuple(sorted(taken.items()))) if taken else None,
+             ["gen:concurrent", f"concurrent:inputs:{len(bufs)}", f"concurrent:switches:{min(len(taken), 6)}",
+              "concurrent:with-decode-error" if any(s_[0] == "ok" and any(x[0] == "decode-error" for x in s_[1]) for s_ in seq) else "concurrent:all-decodable"],
+             sample=lambda: {"lens": [len(b) for b in bufs], "schedule": {str(i): c for i, c in taken.items()}})
+
+
 def shard_main(shard, nshards, tier, scale):
     from diameter.message import DefinedMessage
     from diameter.message.commands import all_commands
     rec = Recorder(PID)
     D = S.Dict()
+    codec_fns = CT.codec_functions()          # before the counting wrappers replace some of them
     install_counters()
     thorough = tier == "thorough"
     signal.signal(signal.SIGALRM, alarm_handler)
@@ -355,6 +402,26 @@ def shard_main(shard, nshards, tier, scale):
             avp = R.enc_avp(d.avp_code, d.vendor_id, 0x40, bad_payloads(tname, n, v))
             flags = 0x80 if k.__name__.endswith("Request") else 0
             check_bytes(R.enc_message(1, flags, k.code, 0, 1, 2, avp), rec, f"typed-payload-typed-cmd:{tname}", True)
+    # concurrent decoding (last: the preemption points slow the codec down)
+    from dv import sched as _sched
+    _sched.clear()
+    info = _sched.install(codec_fns)
+    if shard == 0:
+        rec.extra["concurrent_preemption_functions"] = len(info)
+
+    def damaged(t):
+        buf, idx = t
+        b = bytearray(buf)
+        for i in idx:
+            bit = i % (len(b) * 8)
+            b[bit // 8] ^= 1 << (bit % 8)
+        return bytes(b)
+    one = st.one_of(valid_message_bytes(D, codes), valid_message_bytes(D, codes),
+                    st.tuples(valid_message_bytes(D, codes), st.lists(st.integers(0, 1 << 30), min_size=1, max_size=4)).map(damaged))
+    cstrat = st.tuples(st.lists(one, min_size=2, max_size=3), st.integers(0, 1 << 30), st.sampled_from([0.02, 0.08, 0.3]))
+    hyp.run_given(cstrat, lambda t: check_concurrent(t, rec), int((3000 if thorough else 200) * scale),
+                  derive_seed(PID, "concurrent", shard), rec=rec)
+    _sched.clear()
     signal.alarm(0)
     return rec.dump()
 
@@ -373,7 +440,8 @@ def run(tier, scale=1.0):
     fuzz_info = {}
     if tier == "thorough":
         fuzz_info = run_atheris(rec)
-    required = {"gen:random": 1, "gen:prefix": 1, "gen:bitflip": 1, "gen:length-message": 1,
+    required = {"gen:concurrent": 1, "concurrent:inputs:3": 1, "concurrent:switches:6": 1, "concurrent:with-decode-error": 1,
+                "gen:random": 1, "gen:prefix": 1, "gen:bitflip": 1, "gen:length-message": 1,
                 "gen:length-avp": 1, "gen:length-nested-avp": 1, "gen:typed-payload-bare:Address": 1,
                 "gen:typed-payload-typed-cmd:Grouped": 1, "gen:typed-payload-untyped-cmd:Time": 1,
                 "outcome:plain:returned": 1, "outcome:plain:decode-error": 1}
@@ -419,8 +487,13 @@ def run_atheris(rec):
 
 def replay(doc):
     rec = Recorder(PID)
-    install_counters()
-    check_bytes(bytes.fromhex(doc["case"]["hex"]), rec, "replay")
+    if "concurrent" in doc["case"]:
+        CT.install_points()
+        c = doc["case"]
+        check_concurrent(([bytes.fromhex(h) for h in c["concurrent"]], c["seed"], c["p"]), rec)
+    else:
+        install_counters()
+        check_bytes(bytes.fromhex(doc["case"]["hex"]), rec, "replay")
     if doc["signature"] in rec.violations:
         print(f"  replayed: {rec.violations[doc['signature']]['detail'][:300]}")
         print(f"VIOLATION property={PID} replay=(replay)")
